@@ -444,6 +444,16 @@ def check_case(ctx, case, progs=None, nprog=3, seeds=True):
                     ctx.extra["generic_program_defect_samples"].append({"prog": prog, "optimize": opt, "error": repr(err)[:200] if err else None})
                 continue
             if err is not None:
+                if case["dist"] == "multinomial" and (
+                    (opt and isinstance(err, AttributeError) and "'NoneType' object has no attribute 'dtype'" in repr(err))
+                    or (isinstance(err, RuntimeError) and "Failed to generate metadata" in repr(err))
+                ):
+                    # the listed class (probe_known (E)): a rechunk (explicit, or inserted by chunk unification of a stack /
+                    # elementwise op with a differently chunked operand) pushed through an elementwise op onto the multinomial
+                    # array, whose extra (category) axis is not in its chunks operand
+                    fail("random:multinomial-rechunk-extra-axis:compute-raises", "a rechunk pushed through an elementwise op onto a multinomial array raises under optimisation",
+                         prog=prog, optimize=opt, error=repr(err)[:300])
+                    continue
                 fail("random:derived-raises", "a program derived from a random array raises (but computes over from_array of the same values)",
                      prog=prog, optimize=opt, error=repr(err)[:300])
             else:
